@@ -121,9 +121,11 @@ const (
 	reqWgDone
 	reqSleep
 	reqWake
+	reqCondWait
+	reqCondSignal
 )
 
-var kindName = [...]string{"yield", "spawn", "exit", "maindone", "send", "recv", "close", "opdone", "idle", "nilchan", "lock", "unlock", "select", "wgwait", "wgdone", "sleep", "wake"}
+var kindName = [...]string{"yield", "spawn", "exit", "maindone", "send", "recv", "close", "opdone", "idle", "nilchan", "lock", "unlock", "select", "wgwait", "wgdone", "sleep", "wake", "condwait", "condsignal"}
 
 type request struct {
 	kind  reqKind
@@ -137,6 +139,8 @@ type request struct {
 	cases []selCaseReq // select
 	dflt  bool         // select has a default clause
 	until int64        // sleep: simulated time (ns) at which the task is enabled again
+	all   bool         // condsignal: Broadcast
+	lock  uintptr      // condwait: the mutex released by the same step
 }
 
 // selCaseReq is one communication clause of a select as the scheduler sees it.
@@ -182,8 +186,11 @@ type task struct {
 	prio      int64
 	sel       []selCaseReq // non-nil while blocked in a select
 	selIdx    int
-	wakeAt    int64 // blocked in reqSleep: simulated time (ns) of the wake-up
-	timer     bool  // the task behind a simulated timer
+	wakeAt    int64   // blocked in reqSleep: simulated time (ns) of the wake-up
+	timer     bool    // the task behind a simulated timer
+	daemon    bool    // the task behind a simulated ticker: never counted as left behind
+	tickCh    uintptr // its channel
+	waitSeq   int64   // blocked in reqCondWait: arrival order
 }
 
 type chanState struct {
@@ -235,6 +242,8 @@ type Sim struct {
 	runnableBuf  []*task
 	sleepers     int
 	clockJumps   int64
+	condSeq      int64
+	jumpHorizon  int64 // once main is idle or done: no jumps beyond this simulated time
 }
 
 var cur *Sim
@@ -285,6 +294,7 @@ func Run(cfg Config, mainFn func()) *Result {
 	}
 	resetPools()
 	resetTimers()
+	resetTickers()
 	s.nsPerStep = cfg.NsPerStep
 	if s.nsPerStep <= 0 {
 		s.nsPerStep = defaultNsPerStep
@@ -788,6 +798,38 @@ func (s *Sim) handle(r request) {
 			c.wakeAt = -1 << 62
 		}
 		s.schedule(t, false)
+	case reqCondWait:
+		// the lock is released and the task joins the waiters in one step (a Signal between the
+		// two would be lost, which the real Cond rules out by enlisting before it unlocks)
+		for _, p := range s.tasks {
+			if p.state == stBlocked && p.blockKind == reqLockFail && p.blockCh == r.lock {
+				p.state = stRunnable
+				p.wakeMode = modeProceed
+			}
+		}
+		s.block(t, reqCondWait, r.ch, r.site)
+		s.condSeq++
+		t.waitSeq = s.condSeq
+		s.schedule(nil, true)
+	case reqCondSignal:
+		// Signal wakes the longest waiter, Broadcast all of them
+		for {
+			var first *task
+			for _, p := range s.tasks {
+				if p.state == stBlocked && p.blockKind == reqCondWait && p.blockCh == r.ch && (first == nil || p.waitSeq < first.waitSeq) {
+					first = p
+				}
+			}
+			if first == nil {
+				break
+			}
+			first.state = stRunnable
+			first.wakeMode = modeProceed
+			if !r.all {
+				break
+			}
+		}
+		s.schedule(t, false)
 	case reqWgDone:
 		for _, p := range s.tasks {
 			if p.state == stBlocked && p.blockKind == reqWgWait && p.blockCh == r.ch {
@@ -1082,7 +1124,7 @@ func (s *Sim) setNextStop() {
 func (s *Sim) leakInfos() []LeakInfo {
 	var out []LeakInfo
 	for _, t := range s.tasks {
-		if t.state == stBlocked {
+		if t.state == stBlocked && !t.daemon && !t.timer {
 			out = append(out, LeakInfo{Task: t.id, Name: t.name, SpawnSite: t.spawnSite, BlockSite: t.blockSite, BlockOp: kindName[t.blockKind]})
 		}
 	}
@@ -1119,19 +1161,33 @@ func (s *Sim) schedule(from *task, forced bool) {
 	}
 	s.runnableBuf = run
 	if len(run) == 0 && s.sleepers > 0 {
-		// nothing can run before the next wake-up: the clock jumps to it (discrete-event time)
+		// nothing can run before the next wake-up: the clock jumps to it (discrete-event time).
+		// Once the main task is idle or done the jumps stop at a horizon of one simulated hour:
+		// whoever is still asleep or ticking then has been left behind.  A ticker nobody listens
+		// to never moves the clock.
+		horizon := int64(1<<62 - 1)
+		if s.mainDone || s.mainIdle() {
+			if s.jumpHorizon == 0 {
+				s.jumpHorizon = s.nowNs() + int64(3600e9)
+			}
+			horizon = s.jumpHorizon
+		} else {
+			s.jumpHorizon = 0
+		}
 		next := int64(1<<62 - 1)
 		for _, t := range s.tasks {
-			if t.state == stBlocked && t.blockKind == reqSleep && t.wakeAt < next {
+			if t.state == stBlocked && t.blockKind == reqSleep && t.wakeAt < next && (!t.daemon || s.listenedTo(t)) {
 				next = t.wakeAt
 			}
 		}
-		if d := next - s.nowNs(); d > 0 {
-			s.clockJump += d
-			s.clockJumps++
+		if next <= horizon {
+			if d := next - s.nowNs(); d > 0 {
+				s.clockJump += d
+				s.clockJumps++
+			}
+			s.schedule(from, forced)
+			return
 		}
-		s.schedule(from, forced)
-		return
 	}
 	if len(run) == 0 && s.lockRetries < 3 {
 		// lock waiters retry before quiescence is declared: their mutex may have been released by code
@@ -1203,6 +1259,26 @@ func (s *Sim) schedule(from *task, forced bool) {
 		}
 	}
 	s.resume(from, next)
+}
+
+// mainIdle reports whether the main task waits in Idle.
+//
+//go:norace
+func (s *Sim) mainIdle() bool { return len(s.tasks) > 0 && s.tasks[0].state == stIdle }
+
+// listenedTo reports whether some task is blocked receiving from the channel of ticker task t.
+//
+//go:norace
+func (s *Sim) listenedTo(t *task) bool {
+	if t.tickCh == 0 {
+		return false
+	}
+	for _, p := range s.tasks {
+		if waits(p, t.tickCh, reqRecv) != -2 {
+			return true
+		}
+	}
+	return false
 }
 
 // wakeDue enables the sleepers whose time has come.
